@@ -9,7 +9,9 @@ Rules (all eight point types, both estimate_ overloads; dead `if (CARTESIAN_DIM 
   P4  preconditioner: setPreconditioner rescales exactly the translation parameters (indices 0..D-1), which are the parameters scattered
       into the translation column; the preconditioned find() overloads delegate to the raw ones on the underlying sets
   P5  all eight point types are explicitly instantiated
-(solver side: C07).  Not decided: O(t^2) rotation error, exact translation recovery, float precision (numerical consequences)."""
+  P6  solver side ("its parameters satisfy the normal equations"): the rules of C07 on LeastSquares (row slicing, normal equations, solver
+      paths incl. the singular-value truncation against cond < 1e6, weights, preconditioner) are evaluated here under this rule name
+  Not decided: O(t^2) rotation error, exact translation recovery, float precision (numerical consequences)."""
 import sympy as sp
 from .. import sym, mat, vec
 from ..tree import sx, walk, pp, strip_casts, const_value, short_fn, prune
@@ -17,7 +19,7 @@ from .C20 import deep_unwrap
 from .C14 import stmts_sx
 
 LEVEL = 'other'
-UNITS = ['src/transform/estimation/FindRigidTransformationByLeastSquares.cpp']
+UNITS = ['src/transform/estimation/FindRigidTransformationByLeastSquares.cpp', 'src/regression/leastsquares/LeastSquares.cpp']
 ENGINES = 'E-ALG + E-SIB + E-WIT over romea-facts'
 TECHNIQUE = 'writer/reader table agreement by exact algebra: the Jacobian rows written per correspondence are compared with the formal derivative of the model scattered from the solution vector; fetch-role and overload agreement on the instantiated AST'
 EXPLANATION = ('For each instantiation the loop body of estimate_ is read symbolically (one generic correspondence), the scatter of the solution into the transform gives the model M(x), and '
@@ -99,7 +101,34 @@ def read_estimate(fx, f, psize, nparam):
     return H, states, loops
 
 
+class _Remap:
+    """Forwards C07's verdicts under rule P6."""
+
+    def __init__(self, R):
+        self.R = R
+
+    def holds(self, rule, inst, *a, **k):
+        self.R.holds('P6', '%s[%s]' % (inst, rule), *a, **k)
+
+    def violated(self, rule, inst, *a, **k):
+        self.R.violated('P6', '%s[%s]' % (inst, rule), *a, **k)
+
+    def undecided(self, rule, inst, *a, **k):
+        self.R.undecided('P6', '%s[%s]' % (inst, rule), *a, **k)
+
+    def check(self, cond, rule, inst, *a, **k):
+        return self.R.check(cond, 'P6', '%s[%s]' % (inst, rule), *a, **k)
+
+    def used(self, *f):
+        self.R.used(*f)
+
+    def floor(self, rule, n):
+        pass
+
+
 def run(fx, R, tier):
+    from . import C07
+    C07.run(fx, _Remap(R), tier, sv_ratio=1e-6, sv_why='the condition number of the normal matrix is below 1e6 (quantifier), so its singular values legitimately span a ratio of 1e6')
     classes = sorted({f['cls'] for f in fx.functions.values() if f.get('cls', '').startswith(NS + 'FindRigidTransformationByLeastSquares<')})
     R.check(len(classes) == 8, 'P5', 'FindRigidTransformationByLeastSquares:instantiations', 'only %d of the 8 point types are instantiated' % len(classes), '8 explicit instantiations', None, 'E-WIT')
     R.floor('P1', 16)
